@@ -7,6 +7,9 @@
         // the operation is applied to the global record and, if per-address metrics are on, to the address's record
         op.ensures((&*self.global,), ()),
         self.client matches Some(c) ==> op.ensures((&*c,), ()),
+        final(clk).updates == old(clk).updates + 1,
+//@ entry
+        proof { clk.updates = clk.updates + 1; }
 //@ fn RtrServerMetrics::get_client
 //@ spec
     requires self.client matches Some(c) ==> writer_mutex(&c.addrs) == &c.write,
@@ -27,6 +30,10 @@
         res matches Ok(s) ==> s.metrics.global == server_metrics.global && conn_incremented(&*s.metrics.global)
             && (server_metrics.client matches Some(c) ==>
                     (s.metrics.client matches Some(m) && has_entry(&c.addrs, addr.ip_spec(), m) && conn_incremented(&*m))),
+        // C36: a connection is counted exactly when a stream comes into existence: a failed setup (no
+        // RtrStream, so no Drop) has made no metrics update, a successful one exactly one (the increment)
+        res is Err ==> final(clk).updates == old(clk).updates,
+        res is Ok ==> final(clk).updates == old(clk).updates + 1,
 //@ closure update 1 optional
 |metrics: &RtrMetricsData| ensures conn_incremented(metrics)
 //@ fn RtrStream::drop
@@ -35,5 +42,7 @@
         // C36: closing the stream uncounts it on the same records
         conn_decremented(&*old(self).metrics.global),
         old(self).metrics.client matches Some(m) ==> conn_decremented(&*m),
+        // C36: exactly one update (the decrement)
+        final(clk).updates == old(clk).updates + 1,
 //@ closure update 1 optional
 |metrics: &RtrMetricsData| ensures conn_decremented(metrics)
